@@ -26,6 +26,8 @@ def rexpr(e):
         return "true" if e["v"] else "false"
     if k == "real":
         return repr(e["v"] / e["d"])
+    if k == "dec":
+        return e["n"]            # decimal literal, spelled as the spec gives it
     if k == "time":
         return "time"
     if k == "der":
@@ -147,5 +149,9 @@ def project_flat(cls):
 
 def strip(e):
     """IR node reduced to the fields that carry meaning (for comparison)"""
+    if e["k"] == "dec":          # the parser turns the decimal text into a double: compare as that double
+        from fractions import Fraction
+        f = Fraction(float(e["n"]))
+        return {"k": "real", "n": "", "a": [], "v": f.numerator, "d": f.denominator}
     return {"k": e["k"], "n": e["n"] if e["k"] in ("ref", "un", "call", "bin") else "", "a": [strip(x) for x in e["a"]],
             "v": e["v"] if e["k"] in ("lit", "bool", "real") else 0, "d": e.get("d", 1) if e["k"] == "real" else 1}
